@@ -18,6 +18,7 @@ import vlib
 from tracecheck import TraceChecker
 from vlib import InfraError
 
+BATCH = 5000        # behaviours per harness run / trace file
 TIERS = {
     "quick": dict(executions=120, sim_num=300, sim_max=3000, sim_depth=40, tlc_timeout=900, mc_cfg="MCRtrSocket.cfg", conv_cfg="MCRtrSocketConv.cfg"),
     "thorough": dict(executions=2500, sim_num=4000, sim_max=40000, sim_depth=60, tlc_timeout=3400, mc_cfg="MCRtrSocket_big.cfg", conv_cfg="MCRtrSocketConv_big.cfg"),
@@ -258,18 +259,22 @@ def run(ctx):
     import mcscript
     behs = vlib.tlc_behaviours("MCRtrSocket", "MCRtrSocket_sim.cfg", pid + "-simA", P["sim_num"], P["sim_depth"] + 1, seed,
                                workers=8, emit_depth=P["sim_depth"])[:P["sim_max"]]
-    scriptA = os.path.join(wd, "scriptA.ndjson")
-    nA = mcscript.behaviours_to_script(behs, scriptA)
-    traceA, _ = harness(scriptA, "A", {"mode": "script", "script": scriptA, "seed": seed})
-    cov["binding_A"] = {"behaviours": len(behs), "script_lines": nA, "events": sum(1 for _ in open(traceA)) if traceA else 0,
-                        "generator": "tlc -simulate MCRtrSocket_sim.cfg"}
+    def batches(bs, tag):
+        """generated behaviours go through the harness and TLC in batches (a trace file is read into memory whole)"""
+        n_lines = n_events = 0
+        for bi in range(0, len(bs), BATCH):
+            sc = os.path.join(wd, "script%s%d.ndjson" % (tag, bi // BATCH))
+            n_lines += mcscript.behaviours_to_script(bs[bi:bi + BATCH], sc)
+            tr, _ = harness(sc, "%s%d" % (tag, bi // BATCH), {"mode": "script", "script": sc, "seed": seed})
+            n_events += sum(1 for _ in open(tr)) if tr else 0
+        return n_lines, n_events
+    nA, evA = batches(behs, "A")
+    cov["binding_A"] = {"behaviours": len(behs), "script_lines": nA, "events": evA, "generator": "tlc -simulate MCRtrSocket_sim.cfg"}
 
     # ---- T: transition tour of the model (one run of the real client per kind of transition the envelope has)
     behsT, tinfo = tour(pid, tier == "thorough")
-    scriptT = os.path.join(wd, "scriptT.ndjson")
-    nT = mcscript.behaviours_to_script(behsT, scriptT)
-    traceT, _ = harness(scriptT, "T", {"mode": "script", "script": scriptT, "seed": seed})
-    cov["binding_T"] = dict(tinfo, behaviours=len(behsT), script_lines=nT, events=sum(1 for _ in open(traceT)) if traceT else 0,
+    nT, evT = batches(behsT, "T")
+    cov["binding_T"] = dict(tinfo, behaviours=len(behsT), script_lines=nT, events=evT,
                             generator="tlc MCRtrSocketCover.cfg: shortest behaviour (TLCExt!Trace) to every class of transition (abstract client state x event class)")
 
     # ---- B: seeded conversations with every misbehaviour class
@@ -294,7 +299,8 @@ def run(ctx):
         kinds[e["e"]] = kinds.get(e["e"], 0) + 1
     cov["binding_B"] = {"executions": P["executions"], "script_lines": nB, "events": len(evs), "by_kind": kinds,
                         "ubsan_reports_diagnostic": outB.count("runtime error:")}
-    allev = evs + (vlib.read_ndjson(traceA) if traceA else [])
+    ta0 = os.path.join(wd, "traceA0.ndjson")
+    allev = evs + (vlib.read_ndjson(ta0, limit=400000) if os.path.exists(ta0) else [])
     rel = [e for e in allev if RELEVANT[pid](e)]
     distinct = len({vlib.digest(slim(e)) for e in rel})
     rcode = verdict.finish()
